@@ -140,10 +140,11 @@ def oracle(chk, item, require_ok):
         return "a send whose serialisation fails reported success"
     if rv.get("hang"):
         return "receiver blocked for ever (watchdog) after send=%s" % rec["send"]
+    if c.get("rintr") and "err" in rv:
+        # a read interrupted by a signal may fail the receive (and with it a send that is still in progress: the dedicated channel
+        # goes away); what it must not do is hand out a payload the transport never wrote
+        return None
     if rec["send"] == "Ok":
-        if "err" in rv and c.get("rintr"):
-            # a read interrupted by a signal may fail the receive; what it must not do is hand out a wrong payload
-            return None
         if "err" in rv:
             return "send reported success but the receiver got an error: %s" % rv["err"]
         if not rv.get("equal") or rv.get("len") != c["len"]:
@@ -173,6 +174,8 @@ def render_check(item):
     c, rec = item["case"], item["rec"]
     if rec is None or item["send_obs"] is None:
         return None
+    if c.get("rintr") and rec["send"] != "Ok":
+        return None      # the receiver gave up after its interrupted read and the send in progress lost its peer: not a run of Frag.send with the given oracle
     o = outcome_of(rec["send"])
     if o is None:
         return "false"
